@@ -80,6 +80,13 @@ CLAIMS = {
          "3/8 of the lifetime, two issuers with identical subject+serial, future/past nextUpdate, zero duration, two validator instances.",
          "Coq proof over the cache model + timed correspondence", "DESIGN.md §3 C14",
          "wall-clock time and cache2go's timers are runtime behaviour: the model treats time as exact integers, the harness judges only observations at least 20% away from the expiry boundary."),
+ "C04": ("Coq theorems over the chain-matcher model: C04_verified_means (an accepted signature exhibits a certificate of the chain / trusted "
+         "list that matches by name+algorithm or AKI, is entitled — not the end-entity, cRLSign when key usage is present — and whose key made "
+         "the signature over untampered content), C04_end_entity_never, C04_leaf_is_marked, C04_crlsign_required, C04_tampered_never, "
+         "C04_foreign_key_never, C04_unsupported_algorithm; with C06_digest (digest input = DER tbsCertList) and C16 (verify admits only "
+         "verified lists). Real CRLs: nine signer kinds x four AKI forms, ten algorithms + RSA-PSS/Ed25519, bit flips over a whole CRL.",
+         "Coq proof over the chain-matcher model + real-crypto correspondence", "DESIGN.md §3 C04",
+         "RSA/ECDSA verification is idealised in the model (valid only under the signing key over the signed bytes); the real primitives are exercised on every case and mutation, not proved."),
  "C03": ("Coq theorems C03_table/C03_enabled/C03_iff/C03_effects over a model whose mode table, enable predicates and "
          "VerifyClientCertificate stage list are regenerated from the Go source on every run; plus an exhaustive 1536-cell "
          "table of real handshakes evaluated against the model (vm_compute) and against the property's own wording.",
